@@ -531,6 +531,7 @@ func checkSrcsim(prop, tier string) int {
 	// C07 I4: the stock CLI on a sample of the same trees
 	cliRuns := 0
 	cliStats := map[string]int{}
+	cliModeOf := map[int]cliMode{}
 	if prop == "C07" {
 		n := 240
 		if tier == "thorough" {
@@ -538,7 +539,9 @@ func checkSrcsim(prop, tier string) int {
 		}
 		var cv []cliViol
 		cv, cliRuns, cliStats = c07CLI(plan.jobs, results, n)
+		sort.Slice(cv, func(a, b int) bool { return cv[a].job < cv[b].job })
 		for _, v := range cv {
+			cliModeOf[v.job] = v.mode
 			key := "C07.I4\x00" + v.sig
 			g := groups[key]
 			if g == nil {
@@ -569,7 +572,7 @@ func checkSrcsim(prop, tier string) int {
 		var rp *replayFile
 		if g.Inv == "C07.I4" {
 			ex, _ := explicitJob(&plan.jobs[run])
-			rp = &replayFile{Property: prop, Engine: "srcsim-cli", Seed: seed, Inv: g.Inv, Sig: g.Sig, Detail: g.Detail, Class: plan.meta[run].Class, Faults: plan.jobs[run].Faults}
+			rp = &replayFile{Property: prop, Engine: "srcsim-cli", Seed: seed, Inv: g.Inv, Sig: g.Sig, Detail: g.Detail, Class: plan.meta[run].Class, Faults: plan.jobs[run].Faults, Extra: cliModeOf[run]}
 			if ex != nil {
 				rp.Job = *ex
 			}
